@@ -1,6 +1,6 @@
 (** C03 — observations of real client + real server + recording backend compared with Client/ClientModel.v. *)
 From Coq Require Import NArith String List Bool.
-From P9V Require Import gen.ConstGen gen.ClientGen Client.ClientModel Client.Errs.
+From P9V Require Import gen.ConstGen gen.ClientGen Client.Chunk Client.ClientModel Client.Errs Client.Composed.
 Import ListNotations.
 Open Scope string_scope.
 
@@ -10,7 +10,12 @@ Record ocall := mkoc { oc_m : string; oc_on : otarget; oc_args : list val }.
 Inductive c03case :=
 | COp (op : string) (v : N) (e : env) (fail : bool) (answer : errv)
       (calls : list ocall) (err : option N) (conn_err : bool) (ret ans : string)
-| CErr (answer : errv) (errno : N).          (* linux.ExtractErrno called directly *)
+| CErr (answer : errv) (errno : N)           (* linux.ExtractErrno called directly *)
+(* GetXattr / ListXattrs; drop = k > 0: the connection drops with EOF once the k-th Tread has been sent *)
+| CXattr (is_list : bool) (cs : N) (value : list N) (drop : nat) (walk_err : option errv) (fid : N) (name : string)
+         (calls : list ocall) (returned : bool) (got : list N) (err : option N) (conn : bool)
+(* WalkGetAttr at version v *)
+| CWga (v : N) (names : list string) (fid : N) (getattr_fails : bool) (calls : list ocall) (err : option N).
 
 Fixpoint all2 {A B} (f : A -> B -> bool) (a : list A) (b : list B) : bool :=
   match a, b with
@@ -50,12 +55,28 @@ Definition agrees (c : c03case) : bool :=
   | COp op v e fail answer calls err conn_err _ _ =>
       let mc := backend_calls v op e in
       negb conn_err &&
-      all2 call_matches (if fail then firstn 1 mc else mc) calls &&
+      all2 call_matches (if fail && negb (String.eqb op "Remove") then firstn 1 mc else mc) calls &&
       match err with
       | None => negb fail && negb (local_enosys op) || (fail && match mc with [] => true | _ => false end && negb (local_enosys op))
       | Some n => if local_enosys op then N.eqb n linux_ENOSYS else fail && N.eqb n (extract answer)
       end
   | CErr answer errno => N.eqb (extract answer) errno
+  | CXattr is_list cs value drop walk_err fid name calls returned got err conn =>
+      let w := match walk_err with Some a => XWalkErr (CErrno (extract a)) | None => XWalkOk (List.length value) end in
+      let tape := match drop with O => [] | S k => (repeat (RCount (S (List.length value))) k ++ [RErr CConn])%list end in
+      returned &&
+      all2 call_matches [if is_list then mkbc "ListXattrs" (OnFid fid) [] else mkbc "GetXattr" (OnFid fid) [VS name]] calls &&
+      match fst (xattr_read true (N.to_nat cs) w (rf_of_list value) tape) with
+      | XOk b => negb conn && match err with None => true | _ => false end &&
+                 all2 N.eqb (if is_list then match split_nul [] b with [] => [0%N] | ns => flat_map (fun n => (n ++ [0%N])%list) ns end else b) got
+      | XErr (CErrno n) => negb conn && match err with Some k => N.eqb k n | None => false end
+      | XErr _ => conn
+      end
+  | CWga v names fid gfails calls err =>
+      let e := mkenv (fun _ => VL names) fid 0 (fun _ => 0%N) 8192 in
+      let fails := gfails && negb (pred_holds v "versionSupportsTwalkgetattr") in
+      all2 call_matches (walkgetattr_calls v e fails) calls &&
+      match err with None => negb fails | Some n => fails && N.eqb n 5 end
   end.
 
 (** the property on what was observed: the backend saw the operation the caller made with the caller's
@@ -72,14 +93,37 @@ Definition property_holds (c : c03case) : bool :=
       match calls with
       | [c1] =>
           if String.eqb op "Rename" then String.eqb (oc_m c1) "RenameAt" && match oc_on c1 with TParentOf _ => true | _ => false end
-          else if String.eqb op "Remove" then String.eqb (oc_m c1) "UnlinkAt" && match oc_on c1 with TParentOf _ => true | _ => false end
           else if String.eqb op "Walk" then true
           else String.eqb (oc_m c1) op && match oc_on c1 with TFid f => N.eqb f (e_fid e) | _ => false end
+      | [c1; c2] =>
+          if String.eqb op "Remove" then String.eqb (oc_m c1) "UnlinkAt" && match oc_on c1 with TParentOf _ => true | _ => false end &&
+                                         String.eqb (oc_m c2) "Close"
+          else true
       | _ => true
       end
   | CErr answer errno =>
       (* an errno in the chain is returned as it is *)
       match find is_linux answer with Some n => N.eqb errno n | None => true end
+  | CXattr is_list cs value drop walk_err fid name calls returned got err conn =>
+      returned &&
+      (* a value is returned only complete: never a truncated value without an error *)
+      (if negb conn && match err with None => true | _ => false end
+       then all2 N.eqb got value && match drop with O => true | _ => false end
+       else true) &&
+      (* exactly one backend call: the attribute is fetched once, with the caller's name *)
+      match calls with
+      | [c1] => if is_list then String.eqb (oc_m c1) "ListXattrs"
+                else String.eqb (oc_m c1) "GetXattr" && all2 val_eqb (oc_args c1) [VS name]
+      | _ => false
+      end
+  | CWga v names fid gfails calls err =>
+      (* the walk is performed (one call per component, or one for a clone) and the attributes are fetched in full *)
+      match calls with
+      | [] => false
+      | c1 :: _ => match oc_on c1 with TFid f => N.eqb f fid | _ => false end
+      end &&
+      (if (v <? 2)%N then existsb (fun c => String.eqb (oc_m c) "GetAttr" && all2 val_eqb (oc_args c) [VR (repeat 1%N 14)]) calls
+       else forallb (fun c => String.eqb (oc_m c) "WalkGetAttr") calls)
   end.
 
 Fixpoint failing (f : c03case -> bool) (i : nat) (l : list c03case) : list nat :=
